@@ -185,9 +185,24 @@ def concatAux : List Val → Bytes → Res
 
 def fConcat (args : List Val) : Res := if args.isEmpty then badArgs else concatAux args []
 
-/-- substring.go `Substring.Eval` after the conversions: `text` = `[]rune(str)`. `none` = panic
-(slice bounds out of range after the int64 addition wrapped). -/
-def substrRunes (text : List Nat) (start : Int) (len? : Option Int) : Option (List Nat) :=
+/-- substring.go `Substring.Eval` after the conversions: `text` = `[]rune(str)`. Since the `fix:`
+commit the length is clamped by comparing it with the remaining length
+(`if length > runeCount-startIdx { length = runeCount - startIdx }`; `0 ≤ startIdx < runeCount`
+there, so neither the subtraction nor the later `startIdx+length ≤ runeCount` can wrap): the
+function is total. -/
+def substrRunes (text : List Nat) (start : Int) (len? : Option Int) : List Nat :=
+  let runeCount : Int := text.length
+  let length : Int := len?.getD runeCount
+  let startIdx : Int := if start < 0 then wrap64 (runeCount + start) else start - 1
+  if startIdx < 0 ∨ startIdx ≥ runeCount ∨ length ≤ 0 then []
+  else
+    let length := if length > runeCount - startIdx then runeCount - startIdx else length
+    (text.drop startIdx.toNat).take length.toNat     -- text[startIdx : startIdx+length]
+
+/-- `Substring.Eval` **before** the `fix:` commit (kept only for the witness theorem
+`Gms.C34.fixed_substring_len_overflow_panics`): the clamp was `if startIdx+length > runeCount`,
+an int64 addition that wraps. `none` = panic (slice bounds out of range). -/
+def substrRunesPreFix (text : List Nat) (start : Int) (len? : Option Int) : Option (List Nat) :=
   let runeCount : Int := text.length
   let length : Int := len?.getD runeCount
   let startIdx : Int := if start < 0 then wrap64 (runeCount + start) else start - 1
@@ -220,13 +235,9 @@ def fSubstring : List Val → Res
         | .null => rnull
         | .int p =>
           match rest with
-          | [] => match substrRunes (decodeRunes b) p none with
-            | some r => rtext (encodeRunes r)
-            | none => .crash
+          | [] => rtext (encodeRunes (substrRunes (decodeRunes b) p none))
           | [.null] => rnull
-          | [.int l] => match substrRunes (decodeRunes b) p (some l) with
-            | some r => rtext (encodeRunes r)
-            | none => .crash
+          | [.int l] => rtext (encodeRunes (substrRunes (decodeRunes b) p (some l)))
           | _ => badArgs
         | _ => badArgs
   | _ => badArgs
@@ -267,15 +278,30 @@ def fInstr : List Val → Res
   | _ => badArgs
 
 /-- locate.go `Locate.Eval` after the conversions: **byte** offsets, both sides lower-cased.
-`none` = panic (`str[position-1:]` with `position-1 > len(str)`). -/
-def locateImpl (sub str : Bytes) (position : Int) : Option Int :=
+Since the `fix:` commit the edge-case switch has a third case `position > len(str)` (reachable
+only with an empty `str` and a non-empty needle) that returns 0, so `str[position-1:]` is always
+in bounds: the function is total. -/
+def locateImpl (sub str : Bytes) (position : Int) : Int :=
+  let n : Int := str.length
+  if position ≤ 0 ∨ (n > 0 ∧ position > n) then 0
+  else if sub.isEmpty ∧ str.isEmpty then (if position = 1 then 1 else 0)
+  else if position > n then 0
+  else
+    -- `strings.ToLower(str[position-1:])`: a slice that starts inside a multi-byte character is
+    -- ill-formed, and `strings.Map` re-encodes each stray byte as U+FFFD (3 bytes)
+    match indexOf (mapCase lowerByte sub) (mapCase lowerByte (str.drop (position - 1).toNat)) with
+    | some i => i + position
+    | none => 0
+
+/-- `Locate.Eval` **before** the `fix:` commit (kept only for the witness theorem
+`Gms.C34.fixed_locate_empty_str_pos_panics`): without the third case. `none` = panic
+(`str[position-1:]` with `position-1 > len(str)`). -/
+def locateImplPreFix (sub str : Bytes) (position : Int) : Option Int :=
   let n : Int := str.length
   if position ≤ 0 ∨ (n > 0 ∧ position > n) then some 0
   else if sub.isEmpty ∧ str.isEmpty then (if position = 1 then some 1 else some 0)
   else if position - 1 > n then none
   else
-    -- `strings.ToLower(str[position-1:])`: a slice that starts inside a multi-byte character is
-    -- ill-formed, and `strings.Map` re-encodes each stray byte as U+FFFD (3 bytes)
     match indexOf (mapCase lowerByte sub) (mapCase lowerByte (str.drop (position - 1).toNat)) with
     | some i => some (i + position)
     | none => some 0
@@ -309,9 +335,7 @@ def fLocate : List Val → Res
           match longText b with
           | .error e => .err e
           | .ok b =>
-            let fin (p : Int) : Res := match locateImpl sb b p with
-              | some r => rint r
-              | none => .crash
+            let fin (p : Int) : Res := rint (locateImpl sb b p)
             match rest with
             | [] => fin 1
             | [.null] => fin 1          -- `if posVal != nil` – a NULL position is ignored
@@ -872,7 +896,9 @@ def intArgs : List Val → Option (List Int)
   | _ => none
 
 /-- Region of one call: the name of the known-defect class the call falls into (decided on the
-arguments, not on the outcome), or `none`. -/
+arguments, not on the outcome), or `none`. The two crash classes `locate_empty_str_pos_panics`
+and `substring_len_overflow_panics` were repaired (`fix:` commit) and are no regions any more: a
+LOCATE/SUBSTRING call that panics again has region `-`. -/
 def region (name : String) (args : List Val) : Option String :=
   match name, args with
   | "lpad", [s, .int _, p] | "rpad", [s, .int _, p] =>
@@ -882,13 +908,6 @@ def region (name : String) (args : List Val) : Option String :=
     | _, _ => none
   | "inet_ntoa", [.int i] => if i < 0 ∨ i ≥ 2147483648 then some "inet_ntoa_int32_clamp" else none
   | "bin", [.int i] => if i < 0 then some "bin_negative_drops_zeros" else none
-  | "substring", [s, .int p, .int l] =>
-    match s.bytes? with
-    | some sb =>
-      let rc : Int := (decodeRunes sb).length
-      let sidx : Int := if p < 0 then rc + p else p - 1
-      if validUtf8 sb ∧ 0 ≤ sidx ∧ sidx < rc ∧ sidx + l > maxI64 then some "substring_len_overflow_panics" else none
-    | none => none
   | "locate", sub :: s :: rest =>
     match sub.bytes?, s.bytes? with
     | some sb, some b =>
@@ -896,9 +915,7 @@ def region (name : String) (args : List Val) : Option String :=
         match rest with
         | [.null] => some "locate_null_pos"
         | [] | [.int _] =>
-          let p : Int := match rest with | [.int p] => clamp32 p | _ => 1
-          if b.isEmpty ∧ ¬ sb.isEmpty ∧ p > 1 then some "locate_empty_str_pos_panics"
-          else if hasNonAscii b then some "locate_counts_bytes"
+          if hasNonAscii b then some "locate_counts_bytes"
           else if hasUpperAscii b ∨ hasUpperAscii sb then some "locate_folds_case"
           else none
         | _ => none
@@ -926,10 +943,6 @@ def spec (name : String) (args : List Val) : Res :=
         | _, _ => impl name args)
     | "inet_ntoa", [.int i] => (match inetNtoaSpec i with | some b => rtext b | none => rnull)
     | "bin", [.int i] => rtext (binSpec i)
-    | "substring", [s, .int p, .int l] =>
-      (match s.bytes? with
-        | some sb => rtext (encodeRunes (substrRunesSpec (decodeRunes sb) p (some l)))
-        | none => impl name args)
     | "locate", sub :: s :: rest =>
       (match sub.bytes?, s.bytes?, rest with
         | some _, some _, [.null] => rnull
